@@ -2,7 +2,7 @@
    schedule (list of (thread, choice)) of the model C14/Model.v, any number of threads, any
    scripts, each of the three back-ends.  [c_fix_exit] / [c_fix_add] = true is the code with
    fixes/C14-exit-before-run.patch / fixes/C14-add-ctx-failure.patch applied. *)
-From MV Require Import C14.Model C14.ProofsBase C14.ProofsWake C14.ProofsExit C14.ProofsHandover C14.ProofsVariant gen.Params_C14.
+From MV Require Import C14.Model C14.ProofsBase C14.ProofsWake C14.ProofsExit C14.ProofsHandover C14.ProofsVariant C14.ProofsFair gen.Params_C14.
 
 (* the exit status values the model uses are the ones event_loop.h defines *)
 Theorem c14_exit_status_constants : code_st_exit = ST_EXIT /\ code_st_wake = ST_WAKE.
@@ -51,17 +51,13 @@ Theorem handover_each_released_exactly_once_at_return : forall C sched, c_fix_ad
 Proof. exact handover_released_once. Qed.
 Print Assumptions handover_each_released_exactly_once_at_return.
 
-(* exit_returns (DESIGN.md 6/C14: "as invariant + variant").  Informal full statement: after an
-   exit request from any thread at any point, every fair continuation reaches the clear and exit
-   callbacks and run() returns.  Mechanised: (1) the invariant "EXIT/WAKE pending => a writer of
-   the signal is in flight, or the loop thread is past a poll return in this iteration, or the
-   signal is readable"; (2) a poll attempt with an exit pending and no writer in flight reports
-   the signal (the loop cannot sleep); (3) the exit test after any wake-up with an exit pending
-   leaves the loop towards the clear and exit callbacks; (4) the loop thread is never stuck: when
-   it cannot step it waits for the handle's mutex whose holder can step; (5) the variant
-   [exit_returns_variant] below.  The closing step from (1)-(5) to "returns under every fair
-   schedule" (finitely many enqueues because scripts are finite) is a standard argument that is
-   not itself mechanised. *)
+(* exit_returns, safety part (DESIGN.md 6/C14: "as invariant + variant"): (1) the invariant
+   "EXIT/WAKE pending => a writer of the signal is in flight, or the loop thread is past a poll
+   return in this iteration, or the signal is readable"; (2) a poll attempt with an exit pending
+   and no writer in flight reports the signal (the loop cannot sleep); (3) the exit test after any
+   wake-up with an exit pending leaves the loop towards the clear and exit callbacks; (4) the loop
+   thread is never stuck: when it cannot step it waits for the handle's mutex whose holder can
+   step.  The liveness statement itself is [exit_returns_fair] below. *)
 Theorem exit_returns : forall C sched, c_fix_exit C = true ->
   let s := exec sys (step C) init sched in
   ((to_exit s = 0 \/ to_exit s = ST_EXIT \/ to_exit s = ST_WAKE) /\
@@ -117,3 +113,36 @@ Theorem handover_once_refuted_on_unrepaired_code :
   g_relclear s = [0] /\ queue s = [].
 Proof. exact handover_once_refuted. Qed.
 Print Assumptions handover_once_refuted_on_unrepaired_code.
+
+(* ---- fair schedules (C14/ProofsFair.v) ----
+   A schedule is fair when it is a sequence of rounds each of which schedules every thread at
+   least once (any order, any multiplicity, other entries allowed).  Scripts are finite lists.
+   [G C s] is an explicit natural-number measure of the state (remaining script work, pending
+   loop iterations, queue and ctx_list lengths, position of the loop thread). *)
+
+(* exit_returns, full statement: at any point of any schedule at which an exit has been requested
+   by any thread (before run() records its id, during poll, during dispatch, while already
+   exiting), every fair continuation of more than G rounds ends with the loop thread finished:
+   muggle_evloop_run has returned, after the clear callbacks (every registered context released)
+   and the exit callback (what is still queued was enqueued after it). *)
+Theorem exit_returns_fair : forall C pre rounds,
+  c_fix_exit C = true -> c_fix_add C = true -> c_loop C < c_n C ->
+  let s := exec sys (step C) init pre in
+  to_exit s <> 0 -> Forall (fair_round C) rounds -> G C s < length rounds ->
+  let s' := exec sys (step C) init (pre ++ concat rounds) in
+  thr s' (c_loop C) = Done /\ returned s' = true /\
+  g_relclear s' = reg s' /\ exitdr s' = true /\ queue s' = g_late s'.
+Proof. exact exit_returns_fair_all. Qed.
+Print Assumptions exit_returns_fair.
+
+(* wake_not_lost, liveness: every wake-up request completed at a point of a schedule has, after
+   more than G fair rounds, been followed by the start of a wake callback - unless the loop has
+   left its body (an exit was requested) *)
+Theorem wake_served_fair : forall C pre rounds,
+  c_fix_exit C = true -> c_fix_add C = true -> c_loop C < c_n C ->
+  let s := exec sys (step C) init pre in
+  Forall (fair_round C) rounds -> G C s < length rounds ->
+  let s' := exec sys (step C) init (pre ++ concat rounds) in
+  w_req s <= w_seen s' \/ leaving (thr s' (c_loop C)) = true.
+Proof. exact wake_served_fair_all. Qed.
+Print Assumptions wake_served_fair.
